@@ -12,6 +12,7 @@
 #define VF_INPUTS(X) X(int, type, ) X(unsigned char, nk, ) X(unsigned char, hasstr, ) X(unsigned char, haskey, ) X(unsigned char, str, [TS + 1]) X(unsigned char, key, [TS + 1]) \
     X(int, vi, ) X(double, vd, ) X(unsigned, depth, ) X(unsigned char, recurse, ) X(unsigned char, fail_at, ) X(unsigned char, sub_ok, [K + 1])
 #include "vf.h"
+#include "vf_str.h"
 #include "vf_mem.h"
 #define malloc vf_malloc
 #define free vf_free
